@@ -14,7 +14,7 @@ def init : State := ()
 def parseReply : String → Option Reply
   | "ans" => some .ans | "nx" => some .nx | "nd" => some .nd | "sf" => some .sf | "rf" => some .rf
   | "tc" => some .tc | "to" => some .to | "io" => some .io | "rst" => some .rst
-  | "busy" => some .busy | "cm" => some .cm
+  | "busy" => some .busy | "cm" => some .cm | "cf" => some .cf
   | _ => none
 
 def parseStep (s : String) : Option Step :=
@@ -41,9 +41,11 @@ def parseSrv (s : String) : Option SrvTok :=
   | [tr, w, pre, u, t] => do
     let trust ← (match tr with | "1" => some true | "0" => some false | _ => none)
     let warm ← w.toNat?
+    -- a leading `~`: protocols configured TCP first; `tu`: connection table TCP first (order is immaterial)
+    let pre := if pre.startsWith "~" then (pre.drop 1).toString else pre
     let (preU, preT) ← (match pre with
       | "-" => some (false, false) | "u" => some (true, false)
-      | "t" => some (false, true) | "ut" => some (true, true) | _ => none)
+      | "t" => some (false, true) | "ut" => some (true, true) | "tu" => some (true, true) | _ => none)
     let udp ← parseScript u
     let tcp ← parseScript t
     if udp.isNone && tcp.isNone then none
@@ -100,9 +102,9 @@ def mkLog (half shift : Nat) (l : List (Nat × Xch)) : List LogEnt :=
 
 def FUEL : Nat := 200000
 
-def handle (toks : List String) : Option String :=
+def handleRun (deny : Option (Bool × Bool)) (toks : List String) : Option String :=
   match toks with
-  | "run" :: mode :: strat :: ncr :: tms :: pre :: k :: cx :: srvToks => do
+  | mode :: strat :: ncr :: tms :: pre :: k :: cx :: srvToks => do
     let paced ← (match mode with | "A" => some false | "B" => some true | _ => none)
     let strategy ← (match strat with
       | "user" => some Strategy.user | "rr" => some Strategy.rr | "qs" => some Strategy.qs | _ => none)
@@ -121,9 +123,21 @@ def handle (toks : List String) : Option String :=
     let cfg : Cfg := ⟨srvs.map (·.srv), strategy, ncr, tms⟩
     let conns : List Conn := srvs.map fun s => { liveU := s.preU, liveT := s.preT }
     let times := !paced
+    if deny.isSome && (paced || cx.isSome) then none
     let fmt := fun (r : Res) (t : Nat) (log : List LogEnt) =>
-      showRes r ++ (if paced then " late=" ++ showBool (t > tms + 25) else " t=" ++ toString t) ++
-        " log=" ++ showLog times log ++ " same=1"
+      let r' := match deny with | some (du, dt) => filterRes du dt r | none => r
+      -- payload of a `NoRecordsFound` error after `strip_denied_addresses`: the scripted NXDOMAIN carries
+      -- two authority records (NS + an address in the UDP network) and two glue addresses (one per network)
+      let counts := match deny, r, r' with
+        | some (du, dt), .err .nx, _ =>
+          " aut=" ++ toString (2 - (if du then 1 else 0)) ++
+          " glue=" ++ toString (2 - (if du then 1 else 0) - (if dt then 1 else 0))
+        | some _, _, .err .nx => " aut=0 glue=0"
+        | some _, .err .nodata, _ => " aut=0 glue=0"
+        | some _, _, _ => " aut=- glue=-"
+        | none, _, _ => ""
+      showRes r' ++ (if paced then " late=" ++ showBool (t > tms + 25) else " t=" ++ toString t) ++
+        " log=" ++ showLog times log ++ " same=1" ++ counts
     match cx with
     | none =>
       let (r, st) ← trySend cfg (rrNextAfter cfg pre) 0 conns FUEL
@@ -147,28 +161,86 @@ def handle (toks : List String) : Option String :=
       pure (fmt r first log ++
         (if creatorDone then " c0=" ++ showRes r ++ "@" ++ toString t1 else " c0=cancelled") ++
         " j=" ++ showRes r ++ "@" ++ toString t2)
+  | _ => none
+
+def parseDeny : String → Option (Bool × Bool)
+  | "u" => some (true, false) | "t" => some (false, true) | "ut" => some (true, true)
+  | "-" => some (false, false) | _ => none
+
+def parseErr : String → Option (Option Err)
+  | "ans" => some none | "noconn" => some (some .noconn) | "timeout" => some (some .timeout)
+  | "io" => some (some .io) | "busy" => some (some .busy) | "msg" => some (some .msg)
+  | "nx" => some (some .nx) | "nodata" => some (some .nodata) | "rcode" => some (some .rcode)
+  | _ => none
+
+def handle (toks : List String) : Option String :=
+  match toks with
+  | "run" :: rest => handleRun none rest
+  | "runf" :: d :: rest => do
+    let d ← parseDeny d
+    handleRun (some d) rest
+  | ["noq"] => some "err:msg ex=0"
+  | "rt" :: att :: outs => do
+    -- `RetryDnsHandle` over a plain scripted handle: results of the successive sends, the last repeating
+    let att ← att.toNat?
+    let outs ← outs.mapM parseErr
+    if att > 6 || outs.isEmpty || outs.length > 12 || outs.getLast? == some (some .busy) then none
+    let (r, n) ← retryPlain 64 att 0 outs
+    pure ((match r with | none => "ans" | some e => showRes (.err e)) ++ " sends=" ++ toString n)
   | "share" :: evToks => do
-    -- `share <ev>...`, ev = s<X> | d<X> | p<X> (X ∈ A..D) | r<k> (k ∈ 1..8); a task is started at most once
+    -- `share <ev>...`, ev = s<X>[v] | d<X> | p<X> (X ∈ A..D) | r<k> (k ∈ 1..8); a task is started at most once.
+    -- v ∈ 0..6 selects a variant of the request (`CacheKey`): 0 plain (EDNS, no DO), 1 EDNS with DO, 2 RD clear,
+    -- 3 CD set, 4 another query type, 5 no EDNS at all (same key as 0), 6 EDNS client subnet
     if evToks.isEmpty || evToks.length > 24 then none
+    let task := fun (c : Char) => if 'A' ≤ c ∧ c ≤ 'D' then some (c.toNat - 'A'.toNat) else none
     let evs ← evToks.mapM fun t => match t.toList with
       | [k, c] =>
-        let task := fun (c : Char) => if 'A' ≤ c ∧ c ≤ 'D' then some (c.toNat - 'A'.toNat) else none
         (match k with
-        | 's' => (task c).map SEv.start
-        | 'd' => (task c).map SEv.drop
-        | 'p' => (task c).map SEv.poll
-        | 'r' => if '1' ≤ c ∧ c ≤ '8' then some (SEv.release (c.toNat - '0'.toNat)) else none
+        | 's' => (task c).map fun x => (SEv.start x, 0)
+        | 'd' => (task c).map fun x => (SEv.drop x, 0)
+        | 'p' => (task c).map fun x => (SEv.poll x, 0)
+        | 'r' => if '1' ≤ c ∧ c ≤ '8' then some (SEv.release (c.toNat - '0'.toNat), 0) else none
         | _ => none)
+      | ['s', c, v] =>
+        if '0' ≤ v ∧ v ≤ '6' then (task c).map fun x => (SEv.start x, v.toNat - '0'.toNat) else none
       | _ => none
-    let starts := evs.filterMap fun e => match e with | .start x => some x | _ => none
+    let starts := evs.filterMap fun e => match e.1 with | .start x => some x | _ => none
     if starts.eraseDups.length != starts.length then none
-    let s := Share.run {} evs
+    let multi := evs.any fun e => e.2 != 0
+    let keyOf := fun (v : Nat) => if v == 5 then 0 else v
+    let getM := fun (ms : List (Nat × Share)) (k : Nat) => (ms.lookup k).getD {}
+    let setM := fun (ms : List (Nat × Share)) (k : Nat) (m : Share) => (k, m) :: ms.filter (·.1 != k)
+    -- state: machines per key, (key, local lookup) ↦ global exchange number, exchanges started, key of every
+    -- task, served (task, global exchange)
+    let fin ← evs.foldlM (init := (([] : List (Nat × Share)), ([] : List ((Nat × Nat) × Nat)), 0,
+        ([] : List (Nat × Nat)), ([] : List (Nat × Nat))))
+      fun (ms, l2g, g, tk, served) (ev, v) =>
+        let apply := fun (key : Nat) (e : SEv) (tk : List (Nat × Nat)) =>
+          let m := getM ms key
+          let m' := m.step e
+          let created := m'.started > m.started
+          let g' := if created then g + 1 else g
+          let l2g' := if created then ((key, m'.started), g') :: l2g else l2g
+          let newServed := (m'.served.drop m.served.length).map fun (x, l) =>
+            (x, (l2g'.lookup (key, l)).getD l)
+          some (setM ms key m', l2g', g', tk, served ++ newServed)
+        match ev with
+        | .start x => apply (keyOf v) ev ((x, keyOf v) :: tk)
+        | .drop x | .poll x =>
+          match tk.lookup x with
+          | some key => apply key ev tk
+          | none => some (ms, l2g, g, tk, served)
+        | .release k =>
+          match l2g.find? (fun e => e.2 == k) with
+          | some ((key, l), _) => apply key (.release l) tk
+          | none => if multi then none else apply 0 ev tk
+    let (ms, _, g, _, served) := fin
     let name := fun (x : Nat) => String.singleton (Char.ofNat (x + 'A'.toNat))
-    let served := if s.served.isEmpty then "-" else
-      ",".intercalate (s.served.map fun (x, l) => name x ++ ":" ++ toString l)
-    let alive := (List.range 4).filter fun x => s.tasks.any fun t => t.id == x
+    let servedS := if served.isEmpty then "-" else
+      ",".intercalate (served.map fun (x, l) => name x ++ ":" ++ toString l)
+    let alive := (List.range 4).filter fun x => ms.any fun (_, m) => m.tasks.any fun t => t.id == x
     let waiting := if alive.isEmpty then "-" else ",".intercalate (alive.map name)
-    pure ("ex=" ++ toString s.started ++ " served=" ++ served ++ " waiting=" ++ waiting)
+    pure ("ex=" ++ toString g ++ " served=" ++ servedS ++ " waiting=" ++ waiting)
   | "seq" :: strat :: ncr :: tms :: att :: m :: gap :: srvToks => do
     let strategy ← (match strat with
       | "user" => some Strategy.user | "rr" => some Strategy.rr | _ => none)
